@@ -23,12 +23,19 @@ Scenarios ==
           t \in {[o |-> "critical", v |-> ""], [o |-> "json", v |-> ""]}, n \in NamesArgs \cup {[o |-> "j", v |-> ""]},
           p \in ProgArgs \cup {[o |-> "v", v |-> ""]}}
 
+ModeArgs == {[o |-> "help", v |-> ""], [o |-> "version", v |-> ""], [o |-> "bogus", v |-> ""],
+             [o |-> "json", v |-> ""], [o |-> "v", v |-> ""]}
+ModeScenarios == {[args |-> a, cfg |-> NoCfg, inrepo |-> r] : a \in SeqsUpTo(ModeArgs, 2) \ {<<>>}, r \in BOOLEAN}
+
 VARIABLES st, x
 Init == st = 0 /\ x = [args |-> <<>>, cfg |-> NoCfg]
-Next == st = 0 /\ st' = 1 /\ x' \in Scenarios
+Next == st = 0 /\ \/ st' = 1 /\ x' \in Scenarios
+                  \/ st' = 2 /\ x' \in ModeScenarios
 Spec == Init /\ [][Next]_<<st, x>>
 
 Laws == st = 1 => CanonicalIsFixedPoint(x.args, x.cfg) /\ ConfigIgnoredWhenGiven(x.args, x.cfg)
+ModeExportInv == (Export /\ st = 2) =>
+  PrintT(<<"MODE", ToJson([args |-> x.args, inrepo |-> x.inrepo, kind |-> RunKind(x.args, x.inrepo)])>>)
 ExportInv == (Export /\ st = 1) =>
   LET e == Effective(x.args, x.cfg) IN
   PrintT(<<"SCN", ToJson([args |-> x.args, cfg |-> x.cfg, err |-> e.err, canon |-> IF e.err THEN <<>> ELSE Canonical(e)])>>)
